@@ -252,19 +252,32 @@ UPDATABLE = {"ZSTD_c_compressionLevel", "ZSTD_c_hashLog", "ZSTD_c_chainLog", "ZS
 
 
 def update_authorized(prog, res, names):
+    """evaluate the predicate for every parameter value (finite enum): by constant folding over its CFG when it is a pure
+    function of its parameter (switch, range test, table of comparisons ...), else by its case labels"""
     f = prog.fn("ZSTD_isUpdateAuthorized")
-    cases, _ = case_labels(f)
-    ones = set()
-    for v, bid in cases.items():
-        for (b, i) in f.flow([(bid, 0)]):
-            if i < len(f.blocks[b]["el"]):
-                r = f.blocks[b]["el"][i]
-                if r.get("k") == "ret" and const_val(r.get("e")) == 1:
-                    ones.add(v)
+    ones, unknown = set(), []
+    for v in sorted(names):
+        r = f.eval_pure({0: v})
+        if r is None:
+            unknown.append(v)
+        elif r:
+            ones.add(v)
+    if unknown:
+        cases, _ = case_labels(f)
+        for v in unknown:
+            bid = cases.get(v)
+            if bid is None:
+                continue
+            for (b, i) in f.flow([(bid, 0)]):
+                if i < len(f.blocks[b]["el"]):
+                    r = f.blocks[b]["el"][i]
+                    if r.get("k") == "ret" and const_val(r.get("e")) == 1:
+                        ones.add(v)
     got = {n for v in ones for n in names.get(v, [])}
     res.check(got == UPDATABLE, "T6.update-authorized", "ZSTD_isUpdateAuthorized", f.loc,
-              "returns 1 exactly for the 7 parameters zstd.h documents as updatable mid-frame",
+              "evaluates to 1 exactly for the 7 parameters zstd.h documents as updatable mid-frame (%d values folded, %d by case label)" % (len(names) - len(unknown), len(unknown)),
               "mid-frame updatable set changed: %s" % sorted(got ^ UPDATABLE))
+    return len(unknown) == 0
 
 
 def bounds_table(prog, res, fname, enum_name, names):
@@ -430,7 +443,12 @@ def run(tier):
         f = prog.fn(fname)
         cases, _ = case_labels(f)
         for v, ns in sorted(vals.items()):
-            res.check(v in cases, "T6.exhaustive", "%s:%s" % (fname, "/".join(ns)), f.loc, "has a case",
+            decided = v in cases
+            how = "has a case"
+            if not decided and fname == "ZSTD_isUpdateAuthorized":
+                decided = f.eval_pure({0: v}) is not None        # a predicate written without a switch still decides every value
+                how = "decided by constant folding"
+            res.check(decided, "T6.exhaustive", "%s:%s" % (fname, "/".join(ns)), f.loc, how,
                       "parameter %s (%d) has no case in %s" % ("/".join(ns), v, fname))
     res.need("T6.exhaustive", 38 * 5 + 7 * 3)
     cb = bounds_table(prog, res, "ZSTD_cParam_getBounds", "ZSTD_cParameter", cvals)
